@@ -1087,6 +1087,25 @@ func (e *Env) call(n *ast.CallExpr) Val {
 			// the frontier never lies below ALLOC0 (it starts there and only moves up)
 			t.assume("true", sx(">=", fr, "ALLOC0"), "allocation frontier is at or above its entry value")
 			return scalar(bt, sx("<=", ref, fr))
+		case "fresh":
+			// fresh(x): the object x was allocated by THIS activation of the
+			// function (it lies above the allocation frontier of the entry state)
+			e.nargs(n, 1)
+			v := e.eval(n.Args[0])
+			ref := ""
+			switch v.K {
+			case VScalar:
+				ref = v.S
+			case VSlice:
+				ref = v.Sub[0].S
+			default:
+				e.fail("fresh() needs a reference")
+			}
+			if !t.declSet["ALLOC0"] {
+				t.declare("ALLOC0", "Int")
+				t.assume("true", sx(">", "ALLOC0", "0"), "allocation frontier is above nil")
+			}
+			return scalar(bt, sx(">", ref, "ALLOC0"))
 		case "untainted":
 			// untainted(N): no insertion went into the map that loop N ranges over since its range started
 			e.nargs(n, 1)
